@@ -365,10 +365,17 @@ def write_pad_codewords(buff, version, capacity, length):
     # character position in Micro QR Code versions M1 and M3 symbols shall be
     # represented as 0000.
     write = buff.extend
+    pad_codewords = ((1, 1, 1, 0, 1, 1, 0, 0), (0, 0, 0, 1, 0, 0, 0, 1))
     if version in (consts.VERSION_M1, consts.VERSION_M3):
-        write([0] * (capacity - length))
+        # Padding bits up to the codeword boundary (not added by write_padding_bits)
+        padding = min(-length % 8, capacity - length)
+        write([0] * padding)
+        length += padding
+        for i in range((capacity - length) // 8):
+            write(pad_codewords[i % 2])
+        # The final (4 bit) pad codeword is represented as 0000
+        write([0] * ((capacity - length) % 8))
     else:
-        pad_codewords = ((1, 1, 1, 0, 1, 1, 0, 0), (0, 0, 0, 1, 0, 0, 0, 1))
         for i in range(capacity // 8 - length // 8):
             write(pad_codewords[i % 2])
 
